@@ -6,7 +6,8 @@ CONSTANT Backend
 VARIABLES open, reg, outbox, qtask, eosed, pn, nf, accepted, sent, busy, owes
 
 E(pk, kind, ts, tags) == [pk |-> pk, kind |-> kind, ts |-> ts, tags |-> tags, auth |-> TRUE, exp |-> <<>>]
-UniverseDef == [ n1 |-> E("A", 1, 10, << <<"t", "a">> >>), n2 |-> E("B", 7, 20, << <<"t", "a">> >>) ]
+UniverseDef == [ n1 |-> E("A", 1, 10, << <<"t", "a">> >>), n2 |-> E("B", 7, 20, << <<"t", "a">> >>),
+                 fg |-> [E("A", 1, 30, << <<"t", "a">> >>) EXCEPT !.auth = FALSE] ]
 F(kinds, tags) == [ids |-> <<>>, authors |-> <<>>, kinds |-> kinds, tags |-> tags, since |-> <<>>, until |-> <<>>, limit |-> <<>>]
 FK == F(<<{1}>>, {})
 FT == F(<<>>, {<<"t", {"a"}>>})
@@ -19,7 +20,7 @@ INSTANCE Relay WITH Universe <- UniverseDef, OneCharNames <- {"t"}, Conns <- {1,
 Bound == /\ \A c \in {1, 2} : Len(sent[c]) <= 2 /\ Len(outbox[c]) <= 2
          /\ Cardinality(accepted) <= 1 /\ nf <= 2
          /\ TLCGet("level") <= 11
-BoundQuick == Bound /\ TLCGet("level") <= 9
+BoundQuick == Bound /\ TLCGet("level") <= 8
 \* the history of sent frames does not influence behaviour: explore one representative per (state without history, last frame)
 View == <<open, reg, outbox, qtask, eosed, pn, nf, accepted, busy, owes, [c \in {1, 2} |-> Len(sent[c])]>>
 =============================================================================
